@@ -265,6 +265,12 @@ pub fn construct_sweep(rng: &mut Rng) -> Vec<Prog> {
       if matches!(mk, "f64" | "u8" | "i64") { for _ in 0..3 { let mut g = Gen::new(rng); g.define_matrix_literal(mk, r, c); g.matrix_binop(); g.finish(); out.push(g.prog); } }
     }
   }
+  // complex and rational scalars: literal definitions and arithmetic (general class)
+  for ck in ["c64", "r64"] {
+    let ck: &'static str = ck;
+    for _ in 0..6 { let mut g = Gen::new(rng); g.define_scalar_literal(ck); g.prog.restricted = false; out.push(g.prog); }
+    for _ in 0..10 { let mut g = Gen::new(rng); g.define_scalar_literal(ck); g.define_scalar_literal(ck); g.binop(ck); g.prog.restricted = false; g.finish(); out.push(g.prog); }
+  }
   for _ in 0..8 { let mut g = Gen::new(rng); g.range(); g.finish(); out.push(g.prog); }
   for _ in 0..4 { let mut g = Gen::new(rng); g.define_scalar_literal("f64"); g.vars[0].mutable = true; let s = g.prog.stmts[0].clone(); if !s.starts_with('~') { g.prog.stmts[0] = format!("~{}", s); } g.assign(); out.push(g.prog); }
   for _ in 0..48 { let mut g = Gen::new(rng); g.define_scalar_literal("f64"); g.define_matrix_literal("f64", 2, 2); g.general(); g.finish(); out.push(g.prog); }
